@@ -45,8 +45,8 @@ package head
 //
 // ---- C04: validating a header does not reorder or rewrite its stamps
 //
-// the duplicate check only reads: no duplicate provider among the stamps exactly when it
-// returns no error, and nothing that existed before the call is written (frame)
+// the duplicate check only reads: it returns no error exactly when no entry is null and no
+// provider repeats, and nothing that existed before the call is written (frame)
 //@ pred stampsOK(l []*Stamp) bool = forall i int :: 0 <= i && i < len(l) ==> l[i] != nil
 //@ pred providerBefore(l []*Stamp, i int) bool = exists j int :: 0 <= j && j < i && l[j].Provider == l[i].Provider
 //@ func (s *Stamp) In(ss) (r)
@@ -54,7 +54,18 @@ package head
 //@   ensures r <==> (exists j int :: 0 <= j && j < len(ss) && ss[j].Provider == s.Provider)
 //@   loop 1 invariant forall j int :: 0 <= j && j < idx ==> ss[j].Provider != s.Provider
 //@ func detectDuplicateStamps(list) (err)
-//@   requires typeis(list, []*Stamp) ==> stampsOK(unboxed(list, []*Stamp))
-//@   ensures [unique] typeis(list, []*Stamp) ==> (err == nil <==> (forall i int :: 0 <= i && i < len(unboxed(list, []*Stamp)) ==> !providerBefore(unboxed(list, []*Stamp), i)))
+//@   ensures [unique] typeis(list, []*Stamp) ==> (err == nil <==> stampsOK(unboxed(list, []*Stamp)) && (forall i int :: 0 <= i && i < len(unboxed(list, []*Stamp)) ==> !providerBefore(unboxed(list, []*Stamp), i)))
 //@   ensures [kind] !typeis(list, []*Stamp) ==> err != nil
 //@   loop 1 invariant len(set) == idx && stampsOK(set) && fresh(set) && (forall j int :: 0 <= j && j < idx ==> set[j] == values[j]) && (forall i int :: 0 <= i && i < idx ==> !providerBefore(values, i))
+//
+// the same for links: no error exactly when no entry is null and no key repeats; read-only
+//@ pred linksOK(l []*Link) bool = forall i int :: 0 <= i && i < len(l) ==> l[i] != nil
+//@ pred keyBefore(l []*Link, i int) bool = exists j int :: 0 <= j && j < i && l[j].Key == l[i].Key
+//@ func LinkByKey(links, key) (r)
+//@   requires linksOK(links)
+//@   ensures r != nil <==> (exists j int :: 0 <= j && j < len(links) && links[j].Key == key)
+//@   loop 1 invariant forall j int :: 0 <= j && j < idx ==> links[j].Key != key
+//@ func detectDuplicateLinks(list) (err)
+//@   ensures [unique] typeis(list, []*Link) ==> (err == nil <==> linksOK(unboxed(list, []*Link)) && (forall i int :: 0 <= i && i < len(unboxed(list, []*Link)) ==> !keyBefore(unboxed(list, []*Link), i)))
+//@   ensures [kind] !typeis(list, []*Link) ==> err == nil
+//@   loop 1 invariant len(set) == idx && linksOK(set) && fresh(set) && (forall j int :: 0 <= j && j < idx ==> set[j] == values[j]) && (forall i int :: 0 <= i && i < idx ==> !keyBefore(values, i))
